@@ -59,6 +59,8 @@ fn check_case(c: &Case, obs: &mut Obs) -> Verdict {
     obs.class_if(ties, "equal ratios among kept candidates");
     obs.class_if(total > c.n, "more matches than n");
     obs.class_if(c.bytes, "[u8]");
+    obs.class_if(c.n > 1 << 40, "huge n (all matches)");
+    obs.class_if(c.word.chars().count() >= 100, "word of 100+ symbols");
     obs.class_if(c.cands.iter().any(|s| s.is_empty()) || c.word.is_empty(), "empty string involved");
     obs.class_if(!c.word.is_ascii() || c.cands.iter().any(|s| !s.is_ascii()), "multi-byte");
     Verdict::Pass
@@ -74,14 +76,50 @@ fn render(w: &[usize]) -> String {
     w.iter().map(|i| SYMS[*i]).collect()
 }
 
+/// long words (100-300 symbols): ratios that differ only far behind the decimal point
+fn long_strat() -> BoxedStrategy<Case> {
+    (vec(0usize..3, 100..=300), vec(vec((0u8..3, any::<u16>(), 0usize..4), 1..=6), 2..=8), prop_oneof![Just(1usize), Just(2), Just(3), Just(usize::MAX)], 0usize..8, any::<bool>())
+        .prop_map(|(w, cand_edits, n, pick, bytes)| {
+            let cands: Vec<String> = cand_edits
+                .into_iter()
+                .map(|es| {
+                    let mut v = w.clone();
+                    for (k, at, sym) in es {
+                        let len = v.len();
+                        match k {
+                            0 if len > 0 => {
+                                v.remove(crate::gen::pos(at, len - 1));
+                            }
+                            1 => v.insert(crate::gen::pos(at, len), sym),
+                            _ if len > 0 => {
+                                let p = crate::gen::pos(at, len - 1);
+                                v[p] = sym;
+                            }
+                            _ => {}
+                        }
+                    }
+                    render(&v)
+                })
+                .collect();
+            let word = render(&w);
+            let cutoff = if pick == 7 { 0.6 } else { ref_ratio(&word, &cands[pick % cands.len()]) };
+            Case { word, cands, n, cutoff, bytes }
+        })
+        .boxed()
+}
+
 fn strat(_tier: Tier) -> BoxedStrategy<Case> {
+    prop_oneof![60 => short_strat(), 1 => long_strat()].boxed()
+}
+
+fn short_strat() -> BoxedStrategy<Case> {
     // candidates: independent words or one/two edits away from the word, duplicates allowed
     let cand = prop_oneof![
         2 => word(8).prop_map(|w| (w, vec![])),
         3 => vec((0u8..3, any::<u16>(), 0usize..SYMS.len()), 1..=2).prop_map(|es| (vec![], es)),
         1 => Just((vec![], vec![])),
     ];
-    (word(8), vec(cand, 0..=9), 0usize..6, prop_oneof![
+    (word(8), vec(cand, 0..=9), prop_oneof![20 => 0usize..6, 1 => Just(usize::MAX), 1 => Just(1usize << 60)], prop_oneof![
         2 => prop_oneof![Just(-1i32), Just(-2), Just(-3), Just(-4)],
         4 => (0i32..9),
         2 => (100i32..201),
@@ -137,10 +175,10 @@ impl Prop for C18 {
     type Case = Case;
     const ID: &'static str = "C18";
     fn rule() -> String {
-        "cases = (word, 0-10 candidates, n in 0..6, cutoff, str | [u8]); words over a 7-symbol alphabet incl. multi-byte and a combining sequence; candidates independent or 1-2 edits away from the word, duplicates and empty strings included; cutoff in {0, 0.5, 0.6, 1.0} | the exact ratio of one candidate (so '>= cutoff' is hit exactly) | hundredths. Oracle: brute force — ratio = 2*LCS(chars)/(n+m) by an independent DP (1.0 for two empty strings), keep ratio >= cutoff, sort by ratio descending then candidate ascending (bytewise), take n, compare as value lists. Non-trivial = result non-empty and shorter than the candidate list; distinct = distinct serialized case.".into()
+        "cases = (word, 0-10 candidates, n in 0..6 | usize::MAX | 2^60, cutoff, str | [u8]); 1 case in ~60 uses words of 100-300 symbols with candidates 1-6 edits away (ratios that differ by less than 1e-4); words over a 7-symbol alphabet incl. multi-byte and a combining sequence; candidates independent or 1-2 edits away from the word, duplicates and empty strings included; cutoff in {0, 0.5, 0.6, 1.0} | the exact ratio of one candidate (so '>= cutoff' is hit exactly) | hundredths. Oracle: brute force — ratio = 2*LCS(chars)/(n+m) by an independent DP (1.0 for two empty strings), keep ratio >= cutoff, sort by ratio descending then candidate ascending (bytewise), take n, compare as value lists. Non-trivial = result non-empty and shorter than the candidate list; distinct = distinct serialized case.".into()
     }
     fn assumptions() -> Vec<String> {
-        vec!["ratios are computed in f32 with the same expression as the documented formula; words are short, so the library's u32 scaling of ratios is injective".into()]
+        vec!["ratios are computed in f32 with the same expression as the documented formula; for words up to a few hundred symbols distinct f32 ratios stay distinct under the library's scaling to u32 (exact power-of-two scaling for ratios >= 2^-8)".into()]
     }
     fn stages(tier: Tier) -> Vec<Stage<Case>> {
         vec![Stage { name: "random", kind: StageKind::Random { strategy: strat, cases: tier.pick(1_000_000, 6_000_000) } }]
